@@ -8,6 +8,7 @@ import (
 	"sort"
 	"strings"
 	"sync"
+	"time"
 	"unicode"
 
 	"github.com/goreleaser/nfpm/v2"
@@ -627,6 +628,63 @@ func c16(run *ev.Run, tier string) {
 			}
 		}
 		run.Case(fmt.Sprintf("read-fault|%d cut points", cuts), true)
+	}
+
+	// ---------------- part 3d: size and dates. A document beyond one MiB is parsed to
+	// its end (an unknown key after megabytes of comments is still an unknown
+	// key); a '$'-free mtime at or before 1970-01-01 is kept as written, whatever
+	// SOURCE_DATE_EPOCH says; an entry without src that opts into expansion has
+	// its dst expanded
+	{
+		yb, _ := yaml.Marshal(fullConfig())
+		pad := strings.Repeat("# "+strings.Repeat("padding ", 15)+"\n", 12000) // about 1.4 MiB of comments
+		for _, tail := range []string{"verif_unknown_key_after_the_padding: x\n", "depend: [typo]\n"} {
+			_, err := parseYAML(string(yb)+pad+tail, nil)
+			parses++
+			run.Case("strict|document-beyond-one-MiB|"+strings.SplitN(tail, ":", 2)[0], true)
+			if err == nil {
+				run.Violate("C16/unknown-key-accepted/Config/after-more-than-one-MiB", map[string]any{"document_bytes": len(yb) + len(pad) + len(tail), "injected_key": strings.SplitN(tail, ":", 2)[0]})
+			}
+		}
+		prev, had := os.LookupEnv("SOURCE_DATE_EPOCH")
+		_ = os.Setenv("SOURCE_DATE_EPOCH", "1234567890")
+		for _, mt := range []string{"1970-01-01T00:00:00Z", "1969-07-20T20:17:40Z", "1970-01-01T00:00:01Z"} {
+			doc := "name: x\narch: amd64\nversion: 1.0.0\nmtime: " + mt + "\n"
+			cfg, err := parseYAML(doc, nil)
+			parses++
+			run.Case("dollar-free-mtime|"+mt, true)
+			want, _ := time.Parse(time.RFC3339, mt)
+			if err != nil {
+				run.Violate("C16/valid-document-rejected", map[string]any{"doc": doc, "error": err.Error()})
+			} else if !cfg.MTime.Equal(want) {
+				run.Violate("C16/dollar-free-value-altered/mtime", map[string]any{"written": mt, "got": cfg.MTime.UTC().Format(time.RFC3339), "SOURCE_DATE_EPOCH": "1234567890"})
+			} else if info, err := infoFor(&cfg, "deb"); err == nil && !info.MTime.Equal(want) {
+				run.Violate("C16/dollar-free-value-altered/mtime", map[string]any{"written": mt, "got_in_effective_settings": info.MTime.UTC().Format(time.RFC3339), "SOURCE_DATE_EPOCH": "1234567890"})
+			}
+		}
+		if had {
+			_ = os.Setenv("SOURCE_DATE_EPOCH", prev)
+		} else {
+			_ = os.Unsetenv("SOURCE_DATE_EPOCH")
+		}
+		doc := "name: x\narch: amd64\nversion: 1.0.0\ncontents:\n  - dst: /var/lib/${VERIF_DIRNAME}/state\n    type: dir\n    expand: true\n  - dst: /var/log/${VERIF_DIRNAME}.log\n    type: ghost\n    expand: true\n  - dst: /var/lib/${VERIF_DIRNAME}/untouched\n    type: dir\noverrides:\n  rpm:\n    contents:\n      - dst: /srv/${VERIF_DIRNAME}\n        type: dir\n        expand: true\n"
+		cfg, err := parseYAML(doc, func(k string) string {
+			if k == "VERIF_DIRNAME" {
+				return "expanded"
+			}
+			return ""
+		})
+		parses++
+		run.Case("expand|entries-without-src", true)
+		if err != nil {
+			run.Violate("C16/valid-document-rejected", map[string]any{"doc": doc, "error": err.Error()})
+		} else {
+			got := []string{cfg.Contents[0].Destination, cfg.Contents[1].Destination, cfg.Contents[2].Destination, cfg.Overrides["rpm"].Contents[0].Destination}
+			want := []string{"/var/lib/expanded/state", "/var/log/expanded.log", "/var/lib/${VERIF_DIRNAME}/untouched", "/srv/expanded"}
+			if strings.Join(got, "|") != strings.Join(want, "|") {
+				run.Violate("C16/opted-in-content-entry-not-expanded/entry-without-src", map[string]any{"got": got, "want": want})
+			}
+		}
 	}
 
 	// ---------------- part 4: passphrase precedence, all 16 combinations. The
